@@ -605,6 +605,13 @@ def _main(real_ctx, tf, workdir):
     real_ctx.assumptions += [
         'names over a lower-case alphabet (OpenSSH folds case, asyncssh '
         'matches case-sensitively: constant CaseFold, recorded, not alarmed)',
+        'the address CIDR patterns are applied to is the peer address, or the '
+        'host itself when it is an IP literal and no peer address is known '
+        '(tunnel, proxy command, non-IP socket); with a peer address DIFFERENT '
+        'from an IP-literal host only the peer address is used (as the code '
+        'does; a connection to a literal normally has that very address); '
+        'IPv4 and IPv6, eight addresses each; ssh-keygen is only consulted '
+        'for host NAMES (it knows no CIDR)',
         'CIDR host patterns are an asyncssh extension in known_hosts; they '
         'match the address also when a [host]:port lookup is made',
         'the plain-name fallback of a [host]:port lookup happens when no '
